@@ -379,6 +379,8 @@ def run(R):
         trap_uptimes(R)
         copies(R)
     if R.shard == 1 % R.nshards:
+        through_the_client(R)
+    if R.shard == 1 % R.nshards:
         thread_stress(R)
     if R.shard == 2 % R.nshards:
         deep_stack(R)
@@ -455,9 +457,93 @@ def copies(R):
     R.fingerprints.add("copies")
 
 
+TYPED = {
+    (1, 3, 6, 1, 4, 1, 4242, 7, 1, 0): ("tt", 0), (1, 3, 6, 1, 4, 1, 4242, 7, 2, 0): ("tt", 1), (1, 3, 6, 1, 4, 1, 4242, 7, 3, 0): ("tt", 2**31), (1, 3, 6, 1, 4, 1, 4242, 7, 4, 0): ("tt", 2**32 - 1),
+    (1, 3, 6, 1, 4, 1, 4242, 7, 5, 0): ("c32", 2**32 - 1), (1, 3, 6, 1, 4, 1, 4242, 7, 6, 0): ("g32", 2**31), (1, 3, 6, 1, 4, 1, 4242, 7, 7, 0): ("c64", 2**40 + 17),
+    (1, 3, 6, 1, 4, 1, 4242, 7, 8, 0): ("c64", 2**64 - 1), (1, 3, 6, 1, 4, 1, 4242, 7, 9, 0): ("ip", bytes([192, 0, 2, 255])), (1, 3, 6, 1, 4, 1, 4242, 7, 10, 0): ("c64", 0),
+}
+
+
+def through_the_client(R):
+    """The same conversions where a caller meets them: every client and wrapper operation
+    hands out these values with the type sent (raw) resp. the documented Python value
+    (wrapper) - also on a process that has just seen failures (an SNMPv1 noSuchName, a
+    v1 walk running off the end of the MIB, an error-status, an undecodable response)."""
+    from ..rig import OID, World, drive, drive_agen, oid_s, oid_t, to_tuple
+
+    keys = sorted(TYPED)
+    root = keys[0][:-2]
+    want_raw = [(k, TYPED[k]) for k in keys]
+    want_py = [(oid_s(k), rig.pythonized(TYPED[k])) for k in keys]
+
+    def sweep(label):
+        for level in ("v2c", "v3-md5"):
+            w = World(level, dict(TYPED))
+            w.seam.budget = 200
+            views = {
+                "multiget": lambda: [(k, to_tuple(v)) for k, v in zip(keys, drive(w.client.multiget([OID(k) for k in keys])))],
+                "walk": lambda: [(oid_t(vb.oid), to_tuple(vb.value)) for vb in drive_agen(w.client.walk(OID(root)), limit=50)],
+                "bulkwalk": lambda: [(oid_t(vb.oid), to_tuple(vb.value)) for vb in drive_agen(w.client.bulkwalk([OID(root)], bulk_size=4), limit=50)],
+            }
+            pyviews = {
+                "py.multiget": lambda: list(zip([oid_s(k) for k in keys], drive(w.py.multiget([oid_s(k) for k in keys])))),
+                "py.walk": lambda: [(vb.oid, vb.value) for vb in drive_agen(w.py.walk(oid_s(root)), limit=50)],
+                "py.bulkwalk": lambda: [(vb.oid, vb.value) for vb in drive_agen(w.py.bulkwalk([oid_s(root)], bulk_size=4), limit=50)],
+                "py.get": lambda: [(oid_s(k), drive(w.py.get(oid_s(k)))) for k in keys],
+                "py.bulkget": lambda: list(drive(w.py.bulkget([], [oid_s(root)], max_list_size=len(keys))).listing.items()),
+            }
+            for name, fn in list(views.items()) + list(pyviews.items()):
+                R.evaluations += 1
+                want = want_py if name.startswith("py.") else want_raw
+                try:
+                    got = fn()
+                except Exception as exc:  # noqa: BLE001
+                    got = "raised %r" % (exc,)
+                if got != want or (name.startswith("py.") and [type(v) for _, v in got] != [type(v) for _, v in want]):
+                    diff = next(((g, x) for g, x in zip(got, want) if g != x or type(g[1]) is not type(x[1])), (str(got)[:200], "")) if isinstance(got, list) else (got, "")
+                    R.violation({"kind": "through-the-client", "label": label}, "%s (%s, %s): %r, the agent sent %r" % (name, level, label, diff[0], diff[1]), None)
+                    return False
+                R.mon["values_through_client_and_wrapper_ok"] += 1
+        return True
+
+    if not sweep("fresh process"):
+        return
+    # failures, each followed by the whole sweep
+    def v1_missing():
+        w = World("v1", dict(TYPED))
+        drive(w.client.get(OID((1, 3, 6, 1, 4, 1, 4242, 99, 0))))
+
+    def v1_walk_off_the_end():
+        w = World("v1", {k: v for k, v in TYPED.items() if v[0] != "c64"})
+        drive_agen(w.client.walk(OID(root)), limit=50)
+
+    def v2_error():
+        w = World("v2c", dict(TYPED))
+        w.agent.pdu_hook = lambda req, resp: dict(resp, error_status=5, error_index=1)
+        drive(w.client.get(OID(keys[0])))
+
+    def garbage():
+        w = World("v2c", dict(TYPED))
+        w.set_responder(lambda data: b"\x30\x05\x02\x01\x01\x04\x00")
+        drive(w.client.get(OID(keys[0])))
+
+    for label, fail in (("after an SNMPv1 noSuchName", v1_missing), ("after an SNMPv1 walk ran off the end of the MIB", v1_walk_off_the_end), ("after an error-status", v2_error), ("after an undecodable response", garbage)):
+        try:
+            fail()
+        except Exception:  # noqa: BLE001 - arranged
+            pass
+        if not sweep(label):
+            return
+        R.mon["sweeps_after_a_failure"] += 1
+    R.fingerprints.add("through-the-client")
+
+
 def replay(R, v):
     c = v["case"]
     k = c.get("kind")
+    if k == "through-the-client":
+        through_the_client(R)
+        return
     if k == "copies":
         copies(R)
         return
